@@ -97,9 +97,17 @@ func TourDeposits(rt *rapid.T, muts []string) *ChainCase {
 		if s == 1 || s == 6 || s == 11 {
 			for k := rapid.IntRange(3, 7).Draw(rt, "n_deposits"); k > 0; k-- {
 				p.Queue = append(p.Queue, DepPlan{Kind: rapid.SampledFrom([]int{0, 0, 0, 1, 1, 2, 3, 4}).Draw(rt, "dep_kind"),
-					Amount: rapid.IntRange(0, 6).Draw(rt, "dep_amount"), Eth1: rapid.Bool().Draw(rt, "dep_eth1"),
+					Amount: rapid.IntRange(0, 8).Draw(rt, "dep_amount"), Eth1: rapid.Bool().Draw(rt, "dep_eth1"),
 					Target: rapid.IntRange(0, 200).Draw(rt, "dep_target")})
 			}
+		}
+		// a validator created by half an ETH (effective balance 0) is later topped up in small steps: its balance moves
+		// through the hysteresis band above an effective balance of zero
+		if s == 2 {
+			p.Queue = append(p.Queue, DepPlan{Kind: 0, Amount: 7, Eth1: true})
+		}
+		if s >= 7 && s%4 == 3 {
+			p.Queue = append(p.Queue, DepPlan{Kind: 5, Amount: rapid.SampledFrom([]int{0, 2, 2}).Draw(rt, "small_topup"), Eth1: true, Target: 3 * rapid.IntRange(0, 60).Draw(rt, "small_target")})
 		}
 		a := Action{Kind: "block", Slots: 1, Plan: p}
 		if len(muts) > 0 {
